@@ -30,6 +30,22 @@ fn explore() -> i32 {
         let r = verif_harness::util::catch(std::panic::AssertUnwindSafe(|| { let mut b = yara_x::blocks::Scanner::new(&sets[1].rules); b.finish().map(|_| ()).map_err(|e| e.to_string()) }));
         println!("fresh blocks::Scanner::finish() without scan: {:?}", r);
     }
+    {
+        // triage: compile-time "deputy" items of struct arrays seen by a fresh block scanner
+        for src in [r#"import "test_proto2" rule t { condition: test_proto2.array_struct.len() == 1 }"#,
+                    r#"import "test_proto2" rule t { condition: defined test_proto2.array_struct[0].nested_int64_one }"#,
+                    r#"import "pe" rule t { condition: pe.sections.len() == 1 }"#,
+                    r#"import "pe" rule t { condition: defined pe.sections[0].name }"#,
+                    r#"import "pe" rule t { condition: pe.number_of_sections == 0 or pe.sections.len() >= 0 }"#,
+                    r#"import "elf" rule t { condition: elf.sections.len() == 1 }"#] {
+            let rules = match yara_x::compile(src) { Ok(r) => r, Err(e) => { println!("compile error for {src}: {}", e.to_string().lines().next().unwrap_or("")); continue; } };
+            let fresh_block = { let mut b = yara_x::blocks::Scanner::new(&rules); b.scan(0, b"abc").unwrap(); b.finish().unwrap().matching_rules().len() };
+            let converted = { let mut c = yara_x::Scanner::new(&rules); let _ = c.scan(b"12345"); let mut b = yara_x::blocks::Scanner::from(c); b.scan(0, b"abc").unwrap(); b.finish().unwrap().matching_rules().len() };
+            let converted_unused = { let c = yara_x::Scanner::new(&rules); let mut b = yara_x::blocks::Scanner::from(c); b.scan(0, b"abc").unwrap(); b.finish().unwrap().matching_rules().len() };
+            let contiguous = { let mut c = yara_x::Scanner::new(&rules); c.scan(b"12345").unwrap().matching_rules().len() };
+            println!("{src}\n   fresh block scanner: {fresh_block}  converted after scan: {converted}  converted unused: {converted_unused}  contiguous scan of `12345`: {contiguous}");
+        }
+    }
     if std::env::var("C04_EXPLORE_FULL").is_err() { return 0; }
     quiet_panics();
     let show = |name: &str, rs: usize, h: Vec<Op>, p: Probe| {
@@ -233,6 +249,12 @@ fn corpus() -> Vec<(usize, Vec<Op>, Probe)> {
         (0, vec![Op::ScanOpts { buf: 0, bad_meta: false }, Op::SetModuleOutput { which: 4 }], Probe { blocks: vec![(0, 8)] }),
         // byte distribution cache of math with a user-supplied math output (two buffers >= 5000 bytes)
         (2, vec![Op::Scan { buf: 5, timeout_at: None }, Op::SetModuleOutput { which: 2 }], Probe { blocks: vec![(0, 6)] }),
+        // a heavy scan (more than 10000 of total match-list capacity), then small scans: `#`, `@`, `!` and the reported
+        // matches of patterns that had a few matches in the heavy buffer
+        (0, vec![Op::Scan { buf: 9, timeout_at: None }], Probe { blocks: vec![(0, 2)] }),
+        (1, vec![Op::Scan { buf: 9, timeout_at: None }], Probe { blocks: vec![(0, 0)] }),
+        (1, vec![Op::Scan { buf: 9, timeout_at: None }, Op::Scan { buf: 4, timeout_at: None }], Probe { blocks: vec![(0, 2)] }),
+        (0, vec![Op::IntoBlocks, Op::BlockScan { base: 0, buf: 9, timeout_at: None }, Op::BlockFinish { timeout_at: None }], Probe { blocks: vec![(0, 2)] }),
         (0, vec![Op::MaxMatches { n: 1 }, Op::FastScan { on: true }, Op::Scan { buf: 3, timeout_at: None }, Op::Scan { buf: 6, timeout_at: None }], Probe { blocks: vec![(0, 4)] }),
     ]
 }
@@ -255,7 +277,8 @@ pub fn run(args: &[String]) -> i32 {
     let max_len = arg_u64(args, "--max-len", 6) as usize;
     let out = arg_val(args, "--out").expect("--out");
     let sets = rule_sets();
-    let bufs = buffers();
+    let mut bufs = buffers();
+    bufs.push(heavy_buffer());      // index 9: crosses the capacity threshold of PatternMatches::clear
     if std::env::var("C04_LOUD").is_err() { quiet_panics(); }
     let prelude = "From Coq Require Import List NArith ZArith Bool.\nFrom YV Require Import Scanner.StateCheck.\nImport ListNotations.\n";
     let mut shards = Shards::new(Path::new(&out), prelude, 100);
